@@ -169,6 +169,10 @@ def overflow_stream():
                     "PB(%s) c", "@%s c", "KeyShift(%s) c", "Int X=%s; X++; X++; Print(X)", "Int X=%s; X--; X--; Print(X)", "Print(0-%s)",
                     "Print(MID({abc},%s,2))", "Print(CHR(%s))", "Print(Random(%s))", "r%%%s c", "TimeBase(%s) c", "v.onTime(0,127,%s) c"]:
             out.append(pre + cmd.replace("%s", a).replace("%%", "%"))
+    # negative repeat counts in every form the count reader takes (a count is not work the program asks for when it is negative)
+    for v in ["-1", "-2", "-100", "0-1", "(0-1)", "Zm1", "Zmn", "-2147483648"]:
+        for form in ["[(%s) c] d", "[=%s c] d", "[%s c] d", "[ (%s) c : e] d", "[2 [(%s) c] e] d"]:
+            out.append(pre + form.replace("%s", v))
     odd = ["-$", "-0x", "-$z", "-0xz", "+-$", "-", "--1", "-0o", "-0o9", "$", "0x", "-$-1", "-$FFFFFFFFFFFFFFFFFFFF"]
     for o in odd:
         for ctxt in ["c,,,%s", "c4,,,%s", "n60,,,,%s", "c,%s", "c,,%s", "v%s c", "l%s c", "o%s c", "q%s c", "t%s c", "y1,%s c", "TR(%s) c",
